@@ -66,6 +66,10 @@ fn main() {
         "run" => cmd_run(&args, &scratch),
         "replay" => cmd_replay(&args, &scratch),
         "minimise" => cmd_minimise(&args, &scratch),
+        "child" => match arg(&args, "--case").and_then(|p| std::fs::read_to_string(p).ok()).and_then(|t| serde_json::from_str::<Value>(&t).ok()) {
+            Some(case) => c13::child_main(&case),
+            None => 2,
+        },
         _ => {
             eprintln!("usage: usim selftest|run|replay|minimise ...");
             2
